@@ -214,7 +214,8 @@ static void runScenario(const std::string& prop, size_t idx, const Scenario& sc,
     std::set<std::string> sig1, sig2;
     for (auto& v : R.violations) sig1.insert(v.first);
     std::unordered_map<uint64_t, std::string> paths;
-    if (getenv("VERIF_DEBUG_HASH")) ex2.debugPaths = &paths;
+    std::unordered_map<uint64_t, vp::Explorer::DbgSucc> succ;
+    if (getenv("VERIF_DEBUG_HASH")) { ex2.debugPaths = &paths; ex2.debugSucc = &succ; }
     ex2.explore([&](vp::Explorer& e) { body(e); if ((e.executions & 0x3ff) == 0 && R.expired()) e.stopAll = true; });
     if (ex2.stopAll) { R = saved; R.cap("hash validation cut by deadline"); validateHash = true; return; }
     if (ex2.debugPaths) {
@@ -713,6 +714,30 @@ static std::vector<Scenario> scenariosC01(bool thorough, const vp::Args& A) {
         s.c = 1;
         if (s.k >= 2) s.slices = 8;
         s.name = std::string(enh ? "enh" : "plain") + "/cfg" + std::to_string(ci) + "/pair" + std::to_string(a + 1) + "-" + std::to_string(bb + 2);
+        v.push_back(s);
+      }
+    }
+  }
+  // telegrams that do NOT follow a SYN: after a receive timeout or a signal loss the sender goes on without SYN;
+  // nothing of it may be reported, the next telegram after a SYN must be
+  for (int enh = 0; enh < 2; enh++) {
+    for (int shape = 0; shape < 4; shape++) {
+      for (int gen = 0; gen < 2; gen++) {
+        Scenario s;
+        s.enhanced = enh;
+        s.genSyn = gen;
+        Bytes a = telWire(cat1[3]), b = telWire(cat1[2]), c = telWire(cat1[0]);
+        Script sc1;
+        switch (shape) {
+          case 0: sc1 = Script{pause(0), send(b)}; break;                    // SYN, one receive timeout, telegram
+          case 1: sc1 = Script{pause(2000), send(b)}; break;                 // SYN, signal lost, telegram
+          case 2: sc1 = Script{send(a), pause(2000), send(b)}; break;        // complete telegram, signal lost, telegram
+          case 3: sc1 = Script{send(Bytes(a.begin(), a.begin() + 4)), pause(2000), pause(2000), send(c)}; break;  // truncated, lost twice, broadcast
+        }
+        s.foreign.push_back(sc1);
+        s.foreign.push_back(telScript(cat1[3]));
+        s.k = 1; s.c = 1;
+        s.name = std::string(enh ? "enh" : "plain") + "/nosyn/shape" + std::to_string(shape) + "/gen" + std::to_string(gen) + "/k1";
         v.push_back(s);
       }
     }
